@@ -110,6 +110,8 @@ def proj_struct(tokens: List[Tuple[Any, ...]]) -> List[Tuple[Any, ...]]:
     for t in strip_names(tokens):
         if t[0] in ("EOL", "INDENT"):
             continue
+        if t[0] == "LIT" and isinstance(t[1], str) and t[1] and not t[1].strip(" "):
+            continue        # literal indentation is layout, not structure
         if t[0] == "TEXT":
             out.append(("CONTENT",))
         elif t[0] in ("TAG", "CHILDREN"):
